@@ -562,3 +562,11 @@ def signed_division_opcode(ctx):
             obs = " | ".join(sorted({normalise(outcome_text(o)) for o in outs}))
             exp = f"{s_ if signed else u}(<a.il_read()>, <b.il_read()>)"
             ctx.check(f"ArithmeticOp.il_exec[{op}, {'signed' if signed else 'unsigned'} operands]", obs == exp, exp, obs, fn_where(idx, fi))
+
+
+@rule("R05.12", "C05", "a for loop evaluates its condition before every iteration: an operation below the condition (at any depth) cannot be hoisted in front of the loop - such a loop is rejected; and two operations of one behaviour never share a temporary (a re-used name makes a later `?:` guard the statements of an earlier one)", min_instances=6)
+def r05_12(ctx):
+    from .c06 import r06_4, r06_6
+
+    r06_4(ctx)
+    r06_6(ctx)
